@@ -254,6 +254,8 @@ def rmin(gene, prof, raw, major_counts, cnsol, extra_mutations=(), phases=None, 
 
     # number of keep/new variables an allele has at a position (needed for rule 6), also for unused alleles
     def nvars(A, D, p):
+        if not gene.has_coverage(A, p):
+            return 0  # an allele without a gene copy at p can show neither a variant nor the reference there
         return sum(1 for m in bypos[p] if m in D or gene.has_coverage(A, m.pos))
 
     max_mut = {p: 0 for p in positions}
